@@ -344,7 +344,86 @@ Section Loop.
           { destruct H as [<-|Hin]; [intros C; apply I1, Hpot, C | apply (F1 l0 Hin)]. }
       + cbn [a_raised] in Hr. discriminate.
   Qed.
+  (* the stuck counter never decreases, and a stuck candidate the solver does not refute increments it *)
+  Lemma step_leaf_stuck : forall codes l a a',
+    step codes l a = Some a' ->
+    a_stuck a <= a_stuck a' /\
+    (cls_of codes l = CL_STUCK -> stuck_counts (solve_low (l_query l)) = true -> a_stuck a < a_stuck a').
+  Proof.
+    intros codes l a a' H. unfold step, step_leaf in H. unfold cls_of, panic_found.
+    assert (G : forall c : Z,
+      Some (if c =? CL_POTENTIAL then
+              mkAcc (a_results a ++ [solve_assert (l_query l)]) (a_stuck a) (a_normal a) (a_raised a) (a_width_warn a)
+            else if c =? CL_STUCK then
+              (if stuck_counts (solve_low (l_query l))
+               then mkAcc (a_results a) (a_stuck a + 1) (a_normal a) (a_raised a) (a_width_warn a)
+               else a)
+            else if c =? CL_NORMAL then
+              mkAcc (a_results a) (a_stuck a) (a_normal a + 1) (a_raised a) (a_width_warn a)
+            else a) = Some a' ->
+      a_stuck a <= a_stuck a' /\
+      (c = CL_STUCK -> stuck_counts (solve_low (l_query l)) = true -> a_stuck a < a_stuck a')).
+    { intros c Hc. injection Hc as <-.
+      destruct (c =? CL_POTENTIAL) eqn:C1.
+      { apply Z.eqb_eq in C1. cbn [a_stuck]. split; [lia|]. intros C2. rewrite C1 in C2. unfold CL_POTENTIAL, CL_STUCK in C2. discriminate C2. }
+      destruct (c =? CL_STUCK) eqn:C2.
+      { destruct (stuck_counts (solve_low (l_query l))) eqn:S; cbn [a_stuck]; split; try lia; intros _ D; try discriminate D; lia. }
+      apply Z.eqb_neq in C2.
+      destruct (c =? CL_NORMAL); cbn [a_stuck]; split; try lia; intros C3; contradiction. }
+    destruct (is_panic_of (l_err Q l) (l_data l) codes) eqn:E; try discriminate H; apply G; exact H.
+  Qed.
+
+  Lemma loop_stuck_mono : forall codes width ls pid a0, a_stuck a0 <= a_stuck (lp codes width pid ls a0).
+  Proof.
+    intros codes width ls. induction ls as [|l ls IH]; intros pid a0; unfold lp in *; cbn [loop]; [lia|].
+    destruct (step_leaf Q solve_assert solve_low codes l a0) as [a'|] eqn:S; [|cbn [a_stuck]; lia].
+    destruct (step_leaf_stuck _ _ _ _ S) as [M _].
+    destruct (width_cut width pid); [cbn [a_stuck]; lia|].
+    specialize (IH (pid + 1) a'). lia.
+  Qed.
+
+  Lemma loop_stuck_counted : forall codes width ls pid a0,
+    a_raised (lp codes width pid ls a0) = false ->
+    a_width_warn (lp codes width pid ls a0) = false ->
+    forall l, In l ls -> cls_of codes l = CL_STUCK -> stuck_counts (solve_low (l_query l)) = true ->
+      a_stuck a0 < a_stuck (lp codes width pid ls a0).
+  Proof.
+    intros codes width ls. induction ls as [|l ls IH]; intros pid a0 Hr Hw l0 Hin Hc Hs; [destruct Hin|].
+    unfold lp in *. cbn [loop] in *.
+    destruct (step_leaf Q solve_assert solve_low codes l a0) as [a'|] eqn:S; [|cbn [a_raised] in Hr; discriminate].
+    destruct (width_cut width pid) eqn:W; [cbn [a_width_warn] in Hw; discriminate|].
+    destruct (step_leaf_stuck _ _ _ _ S) as [M1 M2].
+    destruct Hin as [<-|Hin].
+    - specialize (M2 Hc Hs). pose proof (loop_stuck_mono codes width ls (pid + 1) a') as M3. unfold lp in M3. lia.
+    - specialize (IH (pid + 1) a' Hr Hw l0 Hin Hc Hs). lia.
+  Qed.
 End Loop.
+
+(* a PASS without --width warning: every reported path that is stuck (output data None, or an internal
+   HalmosException -- wherever in the call tree it was raised) was either an assertion-failure candidate or
+   refuted by the solver *)
+Theorem pass_no_stuck : forall Q sa sl codes width (e : exploration Q),
+  r_exit (run_test Q sa sl codes width e) = EX_PASS ->
+  r_warn_width (run_test Q sa sl codes width e) = false ->
+  forall l, In l (ex_leaves e) -> is_stuck Q l = true ->
+    panic_found Q codes l = true \/ global_fail (l_ctx l) = true \/ sl (l_query l) = S_UNSAT.
+Proof.
+  intros Q sa sl codes width e Hexit Hw l Hin Hst.
+  unfold run_test in *. cbn [r_exit r_warn_width] in *.
+  set (a := loop Q sa sl codes width 0 (ex_leaves e) acc0) in *.
+  destruct (a_raised a) eqn:Hr; [unfold EX_EXCEPTION, EX_PASS in Hexit; discriminate|].
+  apply verdict_pass in Hexit. destruct Hexit as [_ [_ [_ [Hstuck _]]]].
+  destruct (panic_found Q codes l) eqn:P; [left; reflexivity|].
+  destruct (global_fail (l_ctx l)) eqn:F; [right; left; reflexivity|].
+  right; right.
+  destruct (Z.eq_dec (sl (l_query l)) S_UNSAT) as [U|U]; [exact U|exfalso].
+  assert (C : cls_of Q codes l = CL_STUCK).
+  { unfold cls_of. rewrite P, F, Hst. unfold classify, CL_STUCK. destruct (has_error Q l); reflexivity. }
+  assert (S : stuck_counts (sl (l_query l)) = true).
+  { unfold stuck_counts. apply negb_true_iff, Z.eqb_neq. exact U. }
+  pose proof (loop_stuck_counted Q sa sl codes width (ex_leaves e) 0 acc0 Hr Hw l Hin C S) as L.
+  fold a in L. cbn [a_stuck acc0] in L. lia.
+Qed.
 
 (* ------------------------------------------------------------------ solve_end_to_end *)
 
